@@ -8,7 +8,7 @@ cd /verif
 ( cd "$W" && find . -type f \
     -not -path './lean/.lake/*' -not -path './harness/target*' -not -path './work/*' -not -path './replays/*' \
     -not -path './evidence/*' -not -path './lean/LaytheVerif/Gen/*' -not -name '*.pyc' -not -path './.git/*' \
-    -not -name '.repo_path' -not -path './harness/Cargo.lock' -not -name '.*.lock' -not -path './__pycache__/*' -not -path '*/__pycache__/*' ) | sed 's#^\./##' | sort > /tmp/merge_$N.files
+    -not -name '.repo_path' -not -path './harness/Cargo.toml' -not -path './harness/Cargo.lock' -not -name '.*.lock' -not -path './__pycache__/*' -not -path '*/__pycache__/*' ) | sed 's#^\./##' | sort > /tmp/merge_$N.files
 NEW=""
 while read -r f; do
   if ! git cat-file -e "$BASE:$f" 2>/dev/null; then
